@@ -483,6 +483,60 @@ Proof.
 Qed.
 
 (* ------------------------------------------------------------------ *)
+(* int fields given as bool (fixed finding c60369d)                    *)
+(* ------------------------------------------------------------------ *)
+(* on plain ints the old printing (str) is the present one ("%d") *)
+Lemma extid_manifest_old_plain : forall e, is_ascii_bytes (x_type e) = true ->
+  match x_payload_type e with Some t => is_ascii_bytes t | None => true end = true ->
+  extid_git_object e = Ok (extid_manifest_old e (IPlain (x_version e))).
+Proof. intros e A B. unfold extid_git_object. rewrite A, B. reflexivity. Qed.
+
+(* ... but True and 1 - one integer, equal objects - got two manifests, and no reader of the documented
+   format reads the first as an ExtID *)
+Definition ex_extid_v1 : extid :=
+  {| x_type := bs "t"; x_extid := bs "x"; x_target := {| cs_ty := CRev; cs_id := repeat 1 20 |};
+     x_version := 1%Z; x_payload_type := None; x_payload := None |}.
+Theorem bool_version_refuted_old :
+  int_value (IBool true) = x_version ex_extid_v1 /\ int_value (IPlain 1) = x_version ex_extid_v1 /\
+  extid_manifest_old ex_extid_v1 (IBool true) <> extid_manifest_old ex_extid_v1 (IPlain 1) /\
+  parse_extid (extid_manifest_old ex_extid_v1 (IBool true)) = None /\
+  extid_git_object ex_extid_v1 = Ok (extid_manifest_old ex_extid_v1 (IPlain 1)).
+Proof.
+  split; [reflexivity|]. split; [reflexivity|]. split; [|split; vm_compute; reflexivity].
+  intro H. vm_compute in H. discriminate H.
+Qed.
+
+(* ------------------------------------------------------------------ *)
+(* datetimes without a UTC offset                                      *)
+(* ------------------------------------------------------------------ *)
+(* naive datetimes - tzinfo None, or a tzinfo that gives no offset - are rejected; nothing else changes *)
+Theorem naive_rejected : forall m w,
+  mk_emd_in m (DNaive w) = Err ValueError /\ mk_emd_in m (DOffsetless w) = Err ValueError /\
+  forall d, mk_emd_in m (DAware d) = mk_emd (set_date m d).
+Proof. intros. repeat split. Qed.
+
+(* before 106558f the offset-less case was accepted and the id was a function of the machine's local zone:
+   the same call, on a machine in UTC and on one at +09:00 (Asia/Tokyo), gives two manifests *)
+Definition local_utc (w : Z) : Z := 0%Z.
+Definition local_tokyo (w : Z) : Z := 32400000000%Z.
+Theorem offsetless_refuted_old : exists m w a b,
+  mk_emd_in_old local_utc m (DOffsetless w) = Ok a /\
+  mk_emd_in_old local_tokyo m (DOffsetless w) = Ok b /\
+  emd_git_object a <> emd_git_object b /\
+  (forall H : bytes -> bytes, emd_id H a = H (emd_git_object a) /\ emd_id H b = H (emd_git_object b)).
+Proof.
+  exists (ex_emd (bs "swh") (bs "1.0")), 1611574071000000%Z. eexists. eexists.
+  split; [vm_compute; reflexivity|]. split; [vm_compute; reflexivity|]. split; [|intro H; split; reflexivity].
+  apply second_differs_manifest_differs. vm_compute. discriminate.
+Qed.
+
+(* the old constructor agreed with the present one on every other input, and - for the offset-less carrier - with
+   the present behaviour of the aware datetime "wall clock w at the machine's offset" *)
+Theorem old_differs_only_offsetless : forall local m d,
+  (forall w, d <> DOffsetless w) -> mk_emd_in_old local m d = mk_emd_in m d.
+Proof. intros local m [d|w|w] H; try reflexivity. exfalso. exact (H w eq_refl). Qed.
+
+(* ------------------------------------------------------------------ *)
 (* the admissible context fields per target kind (readable form of emd_valid) *)
 (* ------------------------------------------------------------------ *)
 Definition admissible (t : ety) : list bytes :=
